@@ -1,9 +1,135 @@
-/- Driver operations for C14 (stub: to be filled by the property's model). -/
+/- Driver operations for C14: the pytree / state-dict model (`Model/PyTree.lean`).
+
+Wire format (leaves are integers — the harness numbers the leaves of the real state):
+  tree  ::= null                                   Python None
+          | {"l": int}                             leaf
+          | {"k": "list"|"tuple", "e": [tree…]}    list / tuple (keys str(i) are the model's)
+          | {"k": "dict", "c": [[key, tree]…]}
+          | {"k": "nt", "n": name, "c": [[field, tree]…]}                       NamedTuple
+          | {"k": "dc", "n": name, "s": [[field, value]…], "c": [[field, tree]…]}   flax struct.dataclass
+  sd    ::= null | {"l": int} | {"d": [[key, sd]…]}
+-/
 import PrecondVerif.Kit.Proto
+import PrecondVerif.Model.PyTree
 
 namespace PrecondVerif.Drv.C14
-open Lean PrecondVerif.Proto
+open Lean PrecondVerif.Proto PrecondVerif.Ser
 
-def ops : List Op := []
+abbrev T := PyTree Int String
+abbrev D := StateDict Int
+
+def pairOf {β} (f : Json → R β) (j : Json) : R (String × β) := do
+  match ← asList j with
+  | [k, v] => pure (← asStr k, ← f v)
+  | _ => .error "pair [key, value] expected"
+
+partial def parseTree (j : Json) : R T :=
+  match j with
+  | .null => pure .none
+  | _ =>
+    match j.getObjVal? "l" with
+    | .ok v => do pure (.leaf (← asInt v))
+    | .error _ => do
+      let k ← getStr j "k"
+      match k with
+      | "list" => do pure (PyTree.list (← asListOf parseTree (← field j "e")))
+      | "tuple" => do pure (PyTree.tuple (← asListOf parseTree (← field j "e")))
+      | "dict" => do pure (.node .dict (← asListOf (pairOf parseTree) (← field j "c")))
+      | "nt" => do
+          pure (.node (.namedtuple (← getStr j "n")) (← asListOf (pairOf parseTree) (← field j "c")))
+      | "dc" => do
+          let st ← asListOf (pairOf asStr) (← field j "s")
+          pure (.node (.dataclass (← getStr j "n") st) (← asListOf (pairOf parseTree) (← field j "c")))
+      | _ => .error s!"bad node kind {k}"
+
+partial def parseSD (j : Json) : R D :=
+  match j with
+  | .null => pure .nil
+  | _ =>
+    match j.getObjVal? "l" with
+    | .ok v => do pure (.leaf (← asInt v))
+    | .error _ => do pure (.dict (← asListOf (pairOf parseSD) (← field j "d")))
+
+def pairJson (k : String) (v : Json) : Json := Json.arr #[Json.str k, v]
+
+mutual
+def treeJson : T → Json
+  | .leaf a => obj [("l", toJson a)]
+  | .none => Json.null
+  | .node .list cs => obj [("k", "list"), ("e", Json.arr (elemsJson cs).toArray)]
+  | .node .tuple cs => obj [("k", "tuple"), ("e", Json.arr (elemsJson cs).toArray)]
+  | .node .dict cs => obj [("k", "dict"), ("c", Json.arr (childrenJson cs).toArray)]
+  | .node (.namedtuple n) cs => obj [("k", "nt"), ("n", Json.str n), ("c", Json.arr (childrenJson cs).toArray)]
+  | .node (.dataclass n st) cs =>
+    obj [("k", "dc"), ("n", Json.str n), ("s", Json.arr (st.map fun p => pairJson p.1 (Json.str p.2)).toArray),
+         ("c", Json.arr (childrenJson cs).toArray)]
+def childrenJson : List (String × T) → List Json
+  | [] => []
+  | (k, t) :: rest => pairJson k (treeJson t) :: childrenJson rest
+def elemsJson : List (String × T) → List Json
+  | [] => []
+  | (_, t) :: rest => treeJson t :: elemsJson rest
+end
+
+mutual
+def sdJson : D → Json
+  | .leaf a => obj [("l", toJson a)]
+  | .nil => Json.null
+  | .dict kvs => obj [("d", Json.arr (sdsJson kvs).toArray)]
+def sdsJson : List (String × D) → List Json
+  | [] => []
+  | (k, s) :: rest => pairJson k (sdJson s) :: sdsJson rest
+end
+
+def errStr : Err → String
+  | .notADict => "notADict"
+  | .sizeMismatch w g => s!"sizeMismatch {w} {g}"
+  | .missingKey k => s!"missingKey {k}"
+  | .unknownKey k => s!"unknownKey {k}"
+  | .fieldMismatch => "fieldMismatch"
+
+def optIntJson : Option Int → Json
+  | some a => toJson a
+  | Option.none => Json.null
+
+def runJson (r : List Int × T) : Json :=
+  obj [("updates", intsToJson r.1), ("final", treeJson r.2)]
+
+def exceptJson {β} (f : β → Json) : Except Err β → Json
+  | .ok v => obj [("ok", f v)]
+  | .error e => obj [("err", Json.str (errStr e))]
+
+def ops : List Op := [
+  -- to_state_dict of a tree: key structure, flattened key paths, well-formedness
+  ("state_dict", fun j => do
+    let t ← parseTree (← field j "tree")
+    let sd := toStateDict t
+    pure (obj [("sd", sdJson sd),
+      ("paths", listToJson (fun (p : String × Option Int) => pairJson p.1 (optIntJson p.2)) (StateDict.paths "" sd)),
+      ("wf", Json.bool (wf t)), ("leaves", intsToJson (leaves t))])),
+  -- save / restore into a template of the same skeleton whose leaves are all -1
+  ("roundtrip", fun j => do
+    let t ← parseTree (← field j "tree")
+    let tmpl : T := mapLeaves (fun _ => (-1 : Int)) t
+    let r := fromStateDict tmpl (toStateDict t)
+    let same := match r with
+      | .ok t' => (treeJson t').compress == (treeJson t).compress
+      | .error _ => false
+    pure (obj [("same", Json.bool same), ("restored", exceptJson treeJson r)])),
+  -- from_state_dict(template, sd) for an arbitrary (possibly mismatching) state dict
+  ("restore", fun j => do
+    let t ← parseTree (← field j "template")
+    let sd ← parseSD (← field j "sd")
+    pure (exceptJson treeJson (fromStateDict t sd))),
+  -- toy training loop on an integer-leaved tree: uninterrupted, interrupted at k, checkpointed every step
+  ("resume", fun j => do
+    let t ← parseTree (← field j "tree")
+    let tmpl ← parseTree (← field j "template")
+    let gs ← getInts j "grads"
+    let k ← getNat j "k"
+    pure (obj [("run", runJson (run toyStep t gs)),
+      ("resumed", exceptJson runJson (resume toyStep tmpl t gs k)),
+      ("checkpointed", exceptJson runJson (runCheckpointed toyStep tmpl t gs))]))
+]
 
 end PrecondVerif.Drv.C14
